@@ -114,6 +114,36 @@ class LockObj:
         self.name = name
 
 
+class OpaqueObj:
+    """An opaque python object denoted by a term of sort PyObj; attribute access and method calls are
+    uninterpreted functions of it (deterministic, nothing else assumed)."""
+
+    _FN = {}
+
+    def __init__(self, term, via=None):
+        self.term, self.via = term, via
+
+    @classmethod
+    def fn(cls, name, sorts):
+        key = (name, tuple(str(s) for s in sorts))
+        if key not in cls._FN:
+            cls._FN[key] = z3.Function('py_' + name + '_%d' % len(cls._FN), *(list(sorts) + [pm.PyObj]))
+        return cls._FN[key]
+
+    def attr(self, name):
+        return OpaqueObj(OpaqueObj.fn('attr_' + name, [pm.PyObj])(self.term), via=(self, name))
+
+    def call(self, it, args, kw):
+        base, name = self.via if self.via else (self, '__call__')
+        zargs = [base.term]
+        for a in list(args) + [kw[k] for k in sorted(kw)]:
+            try:
+                zargs.append(to_z3(a))
+            except Unsupported:
+                zargs.append(it.run.fresh('arg', pm.PyObj))
+        return OpaqueObj(OpaqueObj.fn('call_' + name, [a.sort() for a in zargs])(*zargs))
+
+
 class Opaque:
     """A python value we know nothing about except identity (e.g. a datetime)."""
 
@@ -916,7 +946,7 @@ def symbolic_filter_map(it, fr, e, xs):
         elem, eterm = eltv.schema, eltv.pack()
     else:
         eterm = to_z3(eltv)
-        elem = {z3.IntSort(): 'int', z3.BoolSort(): 'bool', Str: 'str', xreal.XReal: 'float'}.get(eterm.sort())
+        elem = {z3.IntSort(): 'int', z3.BoolSort(): 'bool', Str: 'str', xreal.XReal: 'float', pm.PyObj: 'pyobj'}.get(eterm.sort())
         if elem is None:
             raise Unsupported('comprehension element sort %s' % eterm.sort())
     n = run.fresh('cn', z3.IntSort())
@@ -926,6 +956,7 @@ def symbolic_filter_map(it, fr, e, xs):
     r.src, r.parent, r.cond_at, r.elt_at = src, xs, (lambda i: z3.substitute(cond, (J, i))), (lambda i: z3.substitute(eterm, (J, i)))
     run.assume(n >= 0)
     run.assume(n <= xs.n)
+    run.filters = getattr(run, 'filters', []) + [snapshot(r)]
     j, k, i = z3.Int('j!c'), z3.Int('k!c'), z3.Int('i!c')
     run.axiom(z3.ForAll([j], z3.Implies(z3.And(j >= 0, j < n),
                                         z3.And(src[j] >= 0, src[j] < xs.n, r.cond_at(src[j]), arr[j] == r.elt_at(src[j])))))
@@ -1197,11 +1228,11 @@ def subscript(it, base, idx):
         return LockRef(base, idx)
     if isinstance(base, SymList):
         if isinstance(idx, slice):
-            if idx.step is not None or idx.lower not in (None, 0):
+            if idx.step is not None or idx.start not in (None, 0):
                 raise Unsupported('general slice of array-list')
-            if idx.upper is None:
+            if idx.stop is None:
                 return SymList(base.n, base.arr, base.elem)
-            hi = as_int(idx.upper)
+            hi = as_int(idx.stop)
             hz = hi if z3.is_expr(hi) else z3.IntVal(hi)
             n2 = z3.If(hz >= 0, z3.If(hz < base.n, hz, base.n), z3.If(base.n + hz > 0, base.n + hz, 0))
             r = SymList(n2, base.arr, base.elem)
@@ -1718,6 +1749,8 @@ def value_getattr(it, v, a):
                     return getattr(v, a)(*args)
                 raise Unsupported('str.%s with symbolic argument' % a)
             return Builtin('str.' + a, strm)
+    if isinstance(v, OpaqueObj):
+        return v.attr(a)
     if isinstance(v, LockObj) or isinstance(v, LockRef):
         if a in ('acquire', 'release'):
             raise Unsupported('explicit lock acquire/release')
@@ -1760,10 +1793,14 @@ def truth_hook(it, v):
         return len(v.items) > 0
     if isinstance(v, (LockTable, LockRef, LockObj, Opaque, GenObj, PyIter)):
         return True
+    if isinstance(v, OpaqueObj):
+        raise Unsupported('truth value of an opaque python object')
     return None
 
 
 def call_hook(it, f, args, kw):
+    if isinstance(f, OpaqueObj):
+        return f.call(it, args, kw)
     return MISSING
 
 
@@ -1875,6 +1912,22 @@ def fresh_like(it, v, name):
     if r is not MISSING:
         return r
     raise Unsupported('havoc of %s = %r' % (name, v))
+
+
+def snapshot(v):
+    """immutable snapshot of a value at loop entry (array-lists and messages are havoced in place)."""
+    if isinstance(v, SymList):
+        r = SymList(v.n, v.arr, v.elem)
+        for at in ('src', 'parent', 'cond_at', 'elt_at', 'list_of', 'sop_list'):
+            if hasattr(v, at):
+                setattr(r, at, getattr(v, at))
+        return r
+    if isinstance(v, Msg):
+        try:
+            return Msg.from_term(v.schema, v.pack())
+        except Exception:
+            return v
+    return v
 
 
 def fresh_like_hook(it, v, name):
